@@ -91,6 +91,9 @@ func tailStr(s string, n int) string {
 }
 
 // ReplayAll replays behaviours one after the other, each on a fresh server.
+// hangs counts the behaviours of this process that hung again when they were re-run alone.
+var hangs int
+
 func ReplayAll(run *ev.Run, plan Plan, traces []*Trace, source string) {
 	t0 := time.Now()
 	defer func() { run.Add("replay_ms_"+source, time.Since(t0).Milliseconds()) }()
@@ -106,6 +109,12 @@ func ReplayAll(run *ev.Run, plan Plan, traces []*Trace, source string) {
 		}
 	}()
 	for ti, t := range traces {
+		// the verdict is settled long before: three behaviours that hung again when re-run alone (each costs minutes), or 25
+		// violations in this worker - what remains of this source is not replayed
+		if hangs >= 3 || run.NumViolations() >= 25 {
+			run.Add("behaviours_not_replayed_after_the_verdict_was_settled", int64(len(traces)-ti))
+			break
+		}
 		// one real server per worker; a fresh one after a behaviour that crashed or hung it
 		if pool != nil && !pool.Healthy() {
 			pool.Close()
@@ -145,6 +154,9 @@ func ReplayAll(run *ev.Run, plan Plan, traces []*Trace, source string) {
 				rig2.Close()
 			}
 			wire.DefaultTimeout = old
+			if rep.Drift != nil && (rep.Drift.Kind == "connection" || rep.Drift.Kind == "deliver") {
+				hangs++
+			}
 		}
 		run.Eval(t.Sig(), t.NonTrivial())
 		run.Add("steps_replayed", int64(rep.Steps))
